@@ -19,6 +19,8 @@ deriving Inhabited
 
 structure World where
   hs : List (String × Handle) := []
+  /-- scratch file for the backend-vs-flat-file comparison -/
+  scratch : File := File.empty
 deriving Inhabited
 
 def World.get? (w : World) (n : String) : Option Handle := (w.hs.find? (·.1 == n)).map (·.2)
@@ -126,7 +128,7 @@ def findSub (hay needle : Bytes) : Option Nat :=
 
 def coreLine (w : World) (ws : List String) : Option (World × String) :=
   match ws with
-  | ["reset"] => some ({}, "bad-op")
+  | ["reset"] => some ({ scratch := w.scratch }, "bad-op")
   | ["new", name, seed] =>
     (match unhex seed with
      | none => some (w, "bad-op")
@@ -235,6 +237,25 @@ def coreLine (w : World) (ws : List String) : Option (World × String) :=
     (match w.get? name with
      | some h => some (w, s!"T={showBytes h.disk.tree.toList} D={showBytes h.disk.data.toList} B={showBytes h.disk.bitfield.toList} O={showBytes h.disk.oplog.toList}")
      | none => some (w, "nocore"))
+  | ["fnew"] => some ({ w with scratch := File.empty }, "ok")
+  | ["fwrite", off, d] =>
+    (match off.toNat?, unhex d with
+     | some off, some d => let f := w.scratch.write off d; some ({ w with scratch := f }, s!"ok size={f.size}")
+     | _, _ => some (w, "bad-op"))
+  | ["fread", off, len] =>
+    (match off.toNat?, len.toNat? with
+     | some off, some len => some (w, match w.scratch.read off len with | some b => s!"ok {showBytes b}" | none => "err")
+     | _, _ => some (w, "bad-op"))
+  | ["fdel", off, len] =>
+    (match off.toNat?, len.toNat? with
+     | some off, some len => (match w.scratch.del off len with
+        | some f => some ({ w with scratch := f }, s!"ok size={f.size}")
+        | none => some (w, "err"))
+     | _, _ => some (w, "bad-op"))
+  | ["ftrunc", n] =>
+    (match n.toNat? with
+     | some n => let f := w.scratch.truncate n; some ({ w with scratch := f }, s!"ok size={f.size}")
+     | none => some (w, "bad-op"))
   | ["evcheck", _] => some (w, "ok")
   | ["pk", name] =>
     (match (w.get? name).bind (·.core) with
